@@ -122,9 +122,15 @@ def _cell(rec, sim, case, pi, pt, mb, au, tr, cookie_expect, out, okind,
           ws_avail, srv):
     allowed = ['polling', 'websocket'] if tr is None else [tr]
     open_transport = 'websocket' if okind == 'websocket' else 'polling'
-    extra = {'j': '3'} if okind == 'jsonp' else None
+    extra = {'j': '3'} if okind == 'jsonp' else {}
+    if sum(case['cell'][:9]) % 3 == 0:
+        # an application parameter whose (escaped) value looks like more
+        # parameters: it is ONE value, whatever the gateway does to the query
+        # string on the way in
+        rec.count('opens_with_escaped_parameter')
+        extra['next'] = '/rooms?name=lobby&sid=4711&EIO=3&transport=foo&j=x'
     if okind == 'websocket':
-        h = sim.open_ws()
+        h = sim.open_ws(extra)
     else:
         h = sim.open_polling(extra)
     t = h.open_ticket
